@@ -4,7 +4,11 @@ use std::mem::{MaybeUninit, drop as unlock};
 use std::os::fd::{AsRawFd, RawFd};
 use std::ptr::{self, NonNull};
 use std::sync::Mutex;
-use std::sync::atomic::{AtomicU16, Ordering};
+#[cfg(not(a10_verif))]
+use std::sync::atomic::AtomicU16;
+#[cfg(a10_verif)]
+use crate::verif::AtomicU16;
+use std::sync::atomic::Ordering;
 use std::{io, slice};
 
 use crate::io::{
